@@ -1,6 +1,7 @@
 package pogreb
 
 import (
+	"hash/crc32"
 	"os"
 
 	"github.com/akrylysov/pogreb/fs"
@@ -170,3 +171,50 @@ func hC08two(p, T int) {
 }
 
 func H_C08_two() { c := vCase(); hC08two(c%2, c/2) }
+
+// ---- CRC-32 lemma: a single flipped bit always changes the checksum ----
+
+func vCRCTable() []uint32 {
+	t := make([]uint32, 256)
+	for i := 0; i < 256; i++ {
+		c := uint32(i)
+		for j := 0; j < 8; j++ {
+			if c&1 == 1 {
+				c = c>>1 ^ 0xedb88320
+			} else {
+				c >>= 1
+			}
+		}
+		t[i] = c
+	}
+	return t
+}
+
+func crcStep(t []uint32, s uint32, b byte) uint32 { return vLookup32(t, byte(s)^b) ^ (s >> 8) }
+
+// H_C08_crc: the byte-wise CRC-32 (IEEE) update step is injective in the state
+// for a fixed byte and injective in the byte for a fixed state (both decided by
+// the solver for all 2^32 x 2^32 x 2^8 resp. 2^32 x 2^8 x 2^8 values). By
+// induction over the remaining bytes, two inputs of equal length that differ in
+// exactly one byte - in particular in one bit - have different checksums, for
+// records of any length. The step table is tied to hash/crc32 by concrete
+// vectors. With H_C08_iter (all 32 bits of the stored checksum are compared with
+// the CRC of all preceding bytes of the record) this gives the property's
+// single-bit-flip clause.
+func H_C08_crc() {
+	t := vCRCTable()
+	for _, msg := range []string{"", "a", "123456789", "pogreb\x0e\xfd record"} {
+		c := ^uint32(0)
+		for i := 0; i < len(msg); i++ {
+			c = crcStep(t, c, msg[i])
+		}
+		vAssert(^c == crc32.ChecksumIEEE([]byte(msg)), "C08.crc.step-function-is-crc32-ieee")
+	}
+	s1, s2, b := vU32("s1"), vU32("s2"), vU8("b")
+	vAssume(s1 != s2)
+	vAssert(crcStep(t, s1, b) != crcStep(t, s2, b), "C08.crc.step-injective-in-state")
+	s, b1, b2 := vU32("s"), vU8("b1"), vU8("b2")
+	vAssume(b1 != b2)
+	vAssert(crcStep(t, s, b1) != crcStep(t, s, b2), "C08.crc.step-injective-in-byte")
+	vCover("C08.crc.done")
+}
